@@ -108,17 +108,23 @@ Definition is_block_jump (o : op) : bool :=
 Definition remove_all (rs : list reg) (s : PS.t) : PS.t := fold_left (fun s r => PS.remove (rkey r) s) rs s.
 Definition add_all (rs : list reg) (s : PS.t) : PS.t := fold_left (fun s r => PS.add (rkey r) s) rs s.
 
-(* backward scan over the reversed item list; returns the keep mask in reversed order *)
-Fixpoint dce_scan (L : ltab) (ritems : list item) (cur : PS.t) : list bool :=
-  match ritems with
-  | [] => []
-  | (i, o, ss) :: t =>
-      if is_block_jump o then true :: dce_scan L t (add_all (uses o) (out_of L ss))
-      else
-        let dfs := defs o ++ cdefs o in
-        let dead := andb (forallb (fun d => negb (PS.mem (rkey d) cur)) dfs) (negb (se o)) in
-        let cur' := remove_all dfs cur in
-        (negb dead) :: dce_scan L t (if dead then cur' else add_all (uses o) cur')
+(* one step of the backward scan (for op in ops.iter().rev()): keep bit and the new cur_live *)
+Definition dce_step (L : ltab) (it : item) (cur : PS.t) : bool * PS.t :=
+  match it with (i, o, ss) =>
+    if is_block_jump o then (true, add_all (uses o) (out_of L ss))
+    else
+      let dfs := defs o ++ cdefs o in
+      let dead := andb (forallb (fun d => negb (PS.mem (rkey d) cur)) dfs) (negb (se o)) in
+      let cur' := remove_all dfs cur in
+      (negb dead, if dead then cur' else add_all (uses o) cur')
+  end.
+
+(* the reverse iteration as a right fold: (keep mask, cur_live before the first item) *)
+Fixpoint dce_fold (L : ltab) (items : list item) : list bool * PS.t :=
+  match items with
+  | [] => ([], PS.empty)
+  | it :: t => let (ks, cur) := dce_fold L t in
+               let (k, c) := dce_step L it cur in (k :: ks, c)
   end.
 
 Inductive pass_res := POk (ops : list op) | PFuel | PPanic (site : N).
@@ -126,7 +132,7 @@ Inductive pass_res := POk (ops : list op) | PFuel | PPanic (site : N).
 Definition dce_keep (ops : list op) : option (list bool) :=
   match liveness defs FUEL ops with
   | None => None
-  | Some L => Some (rev (dce_scan L (rev (items_of ops)) PS.empty))
+  | Some L => Some (fst (dce_fold L (items_of ops)))
   end.
 
 Definition dce (ops : list op) : pass_res :=
